@@ -65,6 +65,26 @@ int varintAdaptiveCheckSorted(const uint64_t *values, size_t count) {
     return 0;
 }
 
+/* Unique count without scratch memory, for when the allocation fails.
+ * In monotone data equal values are adjacent, so one pass counts them
+ * exactly; this matters because "all unique" would qualify sorted data WITH
+ * duplicates for the set-based BITMAP encoding, which drops duplicates.
+ * Unsorted data is never routed there, so 'count' stays a safe estimate. */
+static size_t varintAdaptiveCountUniqueNoAlloc_(const uint64_t *values,
+                                                size_t count) {
+    if (varintAdaptiveCheckSorted(values, count) == 0) {
+        return count; /* Conservative estimate */
+    }
+
+    size_t unique = 1;
+    for (size_t i = 1; i < count; i++) {
+        if (values[i] != values[i - 1]) {
+            unique++;
+        }
+    }
+    return unique;
+}
+
 /* Count unique values using simple sorting approach */
 size_t varintAdaptiveCountUnique(const uint64_t *values, size_t count) {
     if (count == 0) {
@@ -132,7 +152,7 @@ size_t varintAdaptiveCountUnique(const uint64_t *values, size_t count) {
 
     uint64_t *sorted = malloc(allocSize);
     if (!sorted) {
-        return count; /* Conservative estimate */
+        return varintAdaptiveCountUniqueNoAlloc_(values, count);
     }
 
     memcpy(sorted, values, count * sizeof(uint64_t));
